@@ -23,10 +23,14 @@ RUNS = {"quick": 40_000, "thorough": 1_500_000}
 RULE = ("seeded histories (depth <=7 quick / <=12 thorough) over {start,tick(cost),record_error,heartbeat,"
         "check_timeouts,renew,trigger_apoptosis,terminate,reset,clock moves to just below/above each limit,"
         "backward jumps} on Telomere configurations (max_operations 1..12, error_threshold 1..4, renewal on/off,"
-        " lifetime/idle limits on/off); non-trivial = history with a phase change other than the first start;"
-        " distinct = distinct (configuration, operation list)")
+        " lifetime/idle limits on/off); a quarter of the plans instead put 2-3 tasks x 1-3 of the same calls on one shared"
+        " Telomere under the seeded scheduler (decision at every line of telomere.py) and must be deadlock-free, announce"
+        " only legal transitions and be linearizable w.r.t. the real lifecycle run sequentially; non-trivial = history with a"
+        " phase change other than the first start (threads: a context switch inside an operation);"
+        " distinct = distinct (configuration, operation list[, context switches])")
 COMPONENTS = {"real": ["operon_ai.state.telomere.Telomere"],
-              "stub": ["threading.Lock (SimLock)", "datetime.now (virtual clock)", "phase/senescence callbacks (recorders)"]}
+              "stub": ["threading.Lock (SimLock)", "datetime.now (virtual clock)", "phase/senescence callbacks (recorders)",
+                       "the OS scheduler (seeded scheduler, threads family)"]}
 ASSUMPTIONS = ["reset() is modelled as re-initialisation", "boundary 'exactly at the time limit' is not asserted",
                "callbacks do not raise (a raising callback is the caller's own exception)"]
 EXPECT_PROBES = ("phase_SENESCENT", "phase_TERMINATED", "renewed_from_senescent", "timeout_forced",
